@@ -132,8 +132,12 @@ pub fn run(a: &Args) {
         let v = gen::gen_val(&mut r, &t, 8);
         check_value(&mut o, &mut r, &t, &v);
     }
+    for (t, v) in gen::boundary_cases() {
+        check_value(&mut o, &mut r, &t, &v);
+        o.bump("boundary_length_or_variant_index");
+    }
     for (k, n) in kinds {
         o.bump_by(&format!("kind:{}", k), n);
     }
-    o.finish(&a.summary, "random type shapes over all 29 serde kinds (depth <= 4) x boundary-biased values x 5 encode entry points x 3 decode entry points, a random suffix of 0-8 bytes appended; per-kind sweeps (entire u8/i8 domains; u16/i16/char domains in thorough); distinct = distinct (value, shape), non-trivial = not a bare unit");
+    o.finish(&a.summary, "random type shapes over all 29 serde kinds (depth <= 4) x boundary-biased values x 5 encode entry points x 3 decode entry points, lengths and variant indices at 126..129 and 16383..16385, a random suffix of 0-8 bytes appended; per-kind sweeps (entire u8/i8 domains; u16/i16/char domains in thorough); distinct = distinct (value, shape), non-trivial = not a bare unit");
 }
